@@ -963,6 +963,9 @@ auth_scenarios(long long seed)
 				vf_rng_init(&r, seeds_key, 60 + (uint64_t)q + 16 * (uint64_t)tol);
 				cfg_for(&sc2, &cc, &sv, sb, &r, 0);
 				if (tol) { sv.flags_set = 1; sv.flags = BR_OPT_TOLERATE_NO_CLIENT_AUTH; }
+				/* strict servers: every second one with all the other option flags set: none of them relaxes authentication */
+				else if (q & 1) { sv.flags_set = 1; sv.flags = BR_OPT_ENFORCE_SERVER_PREFERENCES | BR_OPT_NO_RENEGOTIATION | BR_OPT_FAIL_ON_ALPN_MISMATCH; }
+				else if (q & 2) { sv.flags_set = 1; sv.flags = BR_OPT_FAIL_ON_ALPN_MISMATCH; }
 				vs.verdict = -1; vs.pkey_kind = 0; vs.usages = -1;
 				if (q < 5) vs.verdict = sverd[q];
 				else if (q == 5) vs.pkey_kind = 1;
